@@ -182,10 +182,18 @@ impl Gen
                     Op::Revoke(self.tokens[self.rng.gen_range(0..self.tokens.len())])
                 }
                 "probe" => Op::Probe,
-                "wadd" => { if self.g.cfg.nworld == 0 { continue; } let w = self.rng.gen_range(1..=self.g.cfg.nworld) as u8; let b = self.bundle(100 + w); Op::WAdd(w, b) }
-                "wrem" => { if self.g.cfg.nworld == 0 { continue; } let w = self.rng.gen_range(1..=self.g.cfg.nworld) as u8; let b = self.bundle(0); self.regd.retain(|(s, t)| !(*s == 100 + w && b.contains(t))); Op::WRem(w, b) }
+                "wadd" => { if self.g.cfg.nworld == 0 { continue; } let w = self.rng.gen_range(1..=self.g.cfg.nworld) as u8; let b = self.bundle(100 + w); if b.is_empty() { continue; } Op::WAdd(w, b) }
+                "wrem" => { if self.g.cfg.nworld == 0 { continue; } let w = self.rng.gen_range(1..=self.g.cfg.nworld) as u8; let b = self.bundle(0); if b.is_empty() { continue; } Op::WRem(w, b) }
                 "wrun" => { if self.g.cfg.nworld == 0 { continue; } Op::WRun(self.rng.gen_range(1..=self.g.cfg.nworld) as u8) }
-                "eadd" => { if self.g.cfg.neworld == 0 || in_ew { continue; } Op::EAdd(1, self.ent(), self.val()) }
+                "eadd" =>
+                {
+                    if self.g.cfg.neworld == 0 || in_ew { continue; }
+                    let e = self.ent();
+                    // an entity is added to the entity world reactor at most once (no duplicate registrations)
+                    if self.regd.contains(&(200, Trig::EMut(e, 1))) { continue; }
+                    self.regd.push((200, Trig::EMut(e, 1)));
+                    Op::EAdd(1, e, self.val())
+                }
                 "erem" =>
                 {
                     if self.g.cfg.neworld == 0 || in_ew { continue; }
